@@ -23,6 +23,7 @@ class Check(HCheck):
 
     def spaces(self, tier):
         thorough = tier == "thorough"
+        LA = A + L.long_stem(75)
         ops = [
             al.page(Axy),
             al.page(Awx),
@@ -41,6 +42,13 @@ class Check(HCheck):
             al.rule(Ax, "path2"),
             al.create(al.SH),  # a one-stem prefix: its node is the very first block of the trie
             al.create(S),  # a webentity that exists under the other scheme only
+            # an ancestor with a multi-block stem that exists (unmarked) before a prefix is attached below it
+            al.page(LA + b"p:k|"),
+            al.create(LA + b"p:k|"),
+            al.addprefix(LA + b"p:k|p:m|", 0),
+            # a newline byte inside a prefix stem, and a prefix running through the stem that follows it
+            al.create(A + b"p:a\nb|"),
+            al.create(A + b"b|p:deep|"),
         ]
         sp = [Space(Cfg("never"), ops, 5 if thorough else 4, roots=[al.R0, (al.page(Axy), al.page(Awx), al.page(A + b"p:x|p:y|p:z|"))], name="hier/never")]
         ops2 = [
@@ -68,6 +76,10 @@ class Check(HCheck):
         g = R.Ground(w)
         obs = []
         nstems = lambda l: len(L.stems(l))  # noqa: E731
+        # anchored outside the trie walks: the attached prefixes are those of the net edits
+        if dict(g.owner) != dict(w.m.prefix):
+            ctx.fail("prefix-map-vs-edits", "attached prefixes %s differ from the net effect of the edits {%s}" % (_own(g), ", ".join("%s: %s" % (L.show(p), x) for p, x in sorted(w.m.prefix.items()))))
+            return
         for wid in g.weids():
             pl = g.prefixes[wid]
             par, chi = set(), set()
